@@ -847,8 +847,48 @@ def tilde_case(ctx, crit):
                       f'as an ordinary character gives {sorted(counts)}', case)
 
 
+IDENTITY_TEXTS = ['abc', 'Stra\u00dfe', 'stra\u00dfe', 'STRASSE', '\u1f40\u03b4\u03cc\u03c2', '\ufb01n', 'fin', 'I\u0307', '\u0130',
+                  'abc\n', 'a\nb', 'xbc\n', 'ab', '\u00e9t\u00e9', '\u00c9T\u00c9']
+
+
+def identity_case(ctx, t):
+    """a text cell is selected by the criterion that spells its own text, and by nothing the complement adds: however
+    case is folded, it has to be folded the same way on both sides.  With a wildcard: ? is exactly one character and
+    the end of the pattern is the end of the text, also when the text ends in a line feed."""
+    rng = tuple((x,) for x in IDENTITY_TEXTS)
+    case = {'kind': 'identity', 'text': t}
+    ctx.count('identity-cases')
+    ctx.case(('identity', t))
+    eq, ne = lib.call('countif', rng, t), lib.call('countif', rng, '<>' + t)
+    own = lib.call('countif', ((t,),), t)
+    if own != ('v', 1):
+        ctx.violation('identity/cell-not-selected-by-its-own-text',
+                      f'COUNTIF(({t!r},), {t!r}) = {own!r}, expected 1', case)
+        return
+    if eq[0] != 'v' or ne[0] != 'v' or eq[1] + ne[1] != len(rng) or eq[1] < 1:
+        ctx.violation('identity/equal-and-not-equal-do-not-partition',
+                      f'COUNTIF(texts, {t!r}) = {eq!r} and COUNTIF(texts, {"<>" + t!r}) = {ne!r} over {len(rng)} '
+                      f'text cells one of which is {t!r}', case)
+        return
+    if '\n' not in t and len(t) >= 2:
+        # exactly-one-character and end-of-text, against cells that differ from t by a trailing line feed
+        pat = t[:-1] + '?'
+        want = sum(1 for x in IDENTITY_TEXTS if len(x) == len(t) and x[:-1].lower() == t[:-1].lower())
+        got = lib.call('countif', rng, pat)
+        closed = all(x.lower() == x.casefold() for x in IDENTITY_TEXTS if len(x) == len(t)) and t.lower() == t.casefold()
+        if closed and got != ('v', want):
+            ctx.violation('identity/question-mark-is-not-exactly-one-character',
+                          f'COUNTIF(texts, {pat!r}) = {got!r}; {want} of the cells have the length of the pattern and '
+                          f'agree with it up to the last character (a cell like {t + chr(10)!r} is one character longer)',
+                          case)
+
+
 def run(ctx):
     i = 0
+    for t in IDENTITY_TEXTS:
+        i += 1
+        if ctx.mine(i):
+            identity_case(ctx, t)
     for crit in TILDE_CRITERIA:
         i += 1
         if ctx.mine(i):
@@ -881,6 +921,9 @@ def run(ctx):
 
 
 def replay(ctx, case):
+    if case.get('kind') == 'identity':
+        identity_case(ctx, case['text'])
+        return
     if case.get('kind') == 'tilde':
         tilde_case(ctx, case['crit'])
     elif case.get('kind') == 'table':
